@@ -125,7 +125,13 @@ class CallGraph:
     def callers_of(self, pred):
         """[(caller fn, Call)] for every call site one of whose targets satisfies pred(name)."""
         out = []
+        roots_of = getattr(self.crate, "roots_of", None)
+        inlined_view = getattr(self.crate, "bodies", None) is not getattr(self.crate, "raw_bodies", None)
         for name, body in self.crate.bodies.items():
+            if inlined_view and roots_of is not None:
+                rs = roots_of(name)
+                if rs and rs != {name}:
+                    continue      # a function new to the rules: its calls are seen in the functions it is inlined into
             for c in body.calls:
                 if any(pred(t) for t in self.targets(c)):
                     out.append((name, c))
